@@ -41,6 +41,9 @@ def num(v):
     return v
 
 
+HUGE = 10**400
+
+
 class Seg:
     __slots__ = (
         "i",
